@@ -3,8 +3,9 @@ from . import COMMON_TB
 CONFIG = dict(
     harness="c01",
     suites=[
-        dict(suffix="-s", comparisons=[dict(name="model", code=100, kind="eq")]),
-        dict(suffix="-u", comparisons=[]),
+        dict(suffix="-s", comparisons=[dict(name="model", code=100, kind="eq"),
+                                       dict(name="spec", code=101, kind="holds", predicate=True)]),
+        dict(suffix="-u", comparisons=[dict(name="spec", code=101, kind="holds", predicate=True)]),
     ],
     trusted_base=COMMON_TB,
     assumptions=[],
